@@ -939,6 +939,14 @@ def _stale_derived_state(cnode) -> list:
             continue
         reach = closure([m])
         written_here = {a for k in reach for a, _ in writes(methods[k])}
+        # an entry of the derived container updated in place counts as keeping it current
+        for k in reach:
+            sn_ = selfname(methods[k])
+            for x in ast.walk(methods[k]):
+                if isinstance(x, ast.Subscript) and isinstance(x.ctx, ast.Store) and isinstance(x.value, ast.Attribute) and isinstance(x.value.value, ast.Name) and x.value.value.id == sn_:
+                    written_here.add(x.value.attr)
+                if isinstance(x, ast.Call) and isinstance(x.func, ast.Attribute) and x.func.attr in ("update", "setdefault", "append", "extend", "insert", "clear", "pop") and isinstance(x.func.value, ast.Attribute) and isinstance(x.func.value.value, ast.Name) and x.func.value.value.id == sn_:
+                    written_here.add(x.func.value.attr)
         for attr, st in writes(fn):
             for b, srcs in dep.items():
                 if attr in srcs and b not in written_here and not (computed_in[b] & reach):
